@@ -328,50 +328,42 @@ def f3_resolver_shape(ctx: Ctx) -> None:
              'prepare_iter_for_array forces object for every mixing flag', floor=8)
     prog = ctx.prog
     f = prog.func('util.resolve_dtype')
-    flags = {}
-    for a in walk_local(f.node):
-        if isinstance(a, ast.Assign) and isinstance(a.targets[0], ast.Name) and a.targets[0].id.startswith(('dt1_is', 'dt2_is')):
-            flags[a.targets[0].id] = norm(a.value)
-    want_flags = {'dt1_is_str': 'dt1.kind in DTYPE_STR_KINDS', 'dt2_is_str': 'dt2.kind in DTYPE_STR_KINDS',
-                  'dt1_is_dt': 'dt1.kind == DTYPE_DATETIME_KIND', 'dt2_is_dt': 'dt2.kind == DTYPE_DATETIME_KIND',
-                  'dt1_is_tdelta': 'dt1.kind == DTYPE_TIMEDELTA_KIND', 'dt2_is_tdelta': 'dt2.kind == DTYPE_TIMEDELTA_KIND',
-                  'dt1_is_bool': 'dt1.type is np.bool_', 'dt2_is_bool': 'dt2.type is np.bool_'}
-    for k, v in want_flags.items():
-        got = flags.get(k)
-        (ctx.ok if got == v else ctx.bad)(R, f, f.node, f'{k} = {got}' if got == v else f'{k} is defined as `{got}`, expected `{v}`', key=f'flag:{k}')
+    from sfa.symenv import SymEnv
+    p1, p2 = (f.params + ['dt1', 'dt2'])[:2]
+    se = SymEnv(f.node, watch=lambda x: isinstance(x, ast.Call) and call_name(x) == 'np.result_type', max_worlds=4096).run()
+    sites = se.all_sites()
+    ctx.require(len(sites) >= 4, 'resolve_dtype has its np.result_type calls')
 
-    class C(flow.Client):
-        def __init__(self):
-            self.calls: tp.List[tp.Tuple[ast.Call, tp.FrozenSet[str]]] = []
-
-        def join(self, a, b):
-            return a & b
-
-        def refine(self, atom, st, truth):
-            return st | {('' if truth else 'not ') + norm(atom)}
-
-        def on_expr(self, node, st):
-            if isinstance(node, ast.Call) and call_name(node) == 'np.result_type':
-                self.calls.append((node, st))
-            return st
-    c = C()
-    flow.Engine(c).run(f.body, frozenset())
-    ctx.require(len(c.calls) >= 4, 'resolve_dtype has its np.result_type calls')
-    neg = {f'not {k}' for k in want_flags}
-    families = [{'dt1_is_str', 'dt2_is_str'}, {'dt1_is_dt', 'dt2_is_dt'}, {'dt1_is_tdelta', 'dt2_is_tdelta'}]
-    for node, st in c.calls:
-        obj_excluded = "not dt1.kind == 'O'" in st and "not dt2.kind == 'O'" in st
-        fam = next((x for x in families if x <= st), None)
-        key = f'result_type@{"+".join(sorted(fam)) if fam else "numeric"}'
-        if fam is not None and obj_excluded:
-            ctx.ok(R, f, node, f'np.result_type under the same-family guard {sorted(fam)}', key=key)
-        elif neg <= st and obj_excluded:
-            ctx.ok(R, f, node, 'np.result_type after the negative guard (neither side str / bool / datetime / timedelta / object)', key=key)
-        else:
-            missing = sorted(neg - st)
-            ctx.bad(R, f, node, 'np.result_type is reachable for a mixed pair: ' +
-                    (f'not excluded: {[m[4:] for m in missing][:4]}' if missing else 'object dtype not excluded') +
+    def atoms(p: str) -> tp.Dict[str, str]:
+        return {'str': f'{p}.kind in DTYPE_STR_KINDS', 'dt': f'{p}.kind == DTYPE_DATETIME_KIND', 'tdelta': f'{p}.kind == DTYPE_TIMEDELTA_KIND', 'bool': f'{p}.type is np.bool_'}
+    a1, a2 = atoms(p1), atoms(p2)
+    n_site = 0
+    for node, worlds in sites:
+        n_site += 1
+        verdicts = set()
+        missing_all: tp.Set[str] = set()
+        fam_seen = None
+        for w in worlds:
+            facts = se.facts(w)
+            obj_excluded = facts.get(f"{p1}.kind == 'O'") is False and facts.get(f"{p2}.kind == 'O'") is False
+            fam = next((k for k in ('str', 'dt', 'tdelta') if facts.get(a1[k]) and facts.get(a2[k])), None)
+            neg_missing = {t for t in list(a1.values()) + list(a2.values()) if facts.get(t) is not False}
+            if obj_excluded and fam is not None:
+                verdicts.add('family')
+                fam_seen = fam
+            elif obj_excluded and not neg_missing:
+                verdicts.add('negative')
+            else:
+                verdicts.add('bad')
+                missing_all |= neg_missing if obj_excluded else {'object dtype'}
+        key = f'result_type#{n_site}'
+        if 'bad' in verdicts:
+            ctx.bad(R, f, node, 'np.result_type is reachable for a mixed pair: not excluded: ' + str(sorted(missing_all)[:4]) +
                     ' — NumPy would promote (e.g. str + int -> str, bool + int -> int) instead of going to object', key=key)
+        elif verdicts == {'family'}:
+            ctx.ok(R, f, node, f'np.result_type under the same-family guard (both {fam_seen})', key=key)
+        else:
+            ctx.ok(R, f, node, 'np.result_type after the negative guard (neither side str / bool / datetime / timedelta / object)', key=key)
     # equal dtypes short-circuit
     # the first deciding statement (docstring / pass / assert aside) returns one of the two arguments when they are equal
     deciding = [x for x in f.node.body if not isinstance(x, (ast.Pass, ast.Assert)) and not (isinstance(x, ast.Expr) and isinstance(x.value, ast.Constant))]
@@ -393,23 +385,46 @@ def f3_resolver_shape(ctx: Ctx) -> None:
     (ctx.ok if good else ctx.bad)(R, init, init.node, '_row_dtype = resolve_dtype_iter(block dtypes)' if good else '_row_dtype is not computed by the resolver', key='row-dtype-init')
     # prepare_iter_for_array
     h = prog.func('util.prepare_iter_for_array')
-    src = [norm(n) for n in walk_local(h.node) if isinstance(n, ast.If)]
-    need = ['has_tuple or has_enum or (has_str and has_non_str)', 'has_big_int and has_inexact']
-    for nd in need:
-        hit = [s for s in src if nd in s and 'resolved = object' in s]
-        (ctx.ok if hit else ctx.bad)(R, h, h.node, f'`{nd}` forces object' if hit else f'the mixing condition `{nd}` no longer forces an object array', key=f'prepare:{nd[:30]}')
-    # order independence of the scan: a has_* flag is set under a test of the current element only, never of other flags
-    flags_set = []
-    for n in walk_local(h.node):
-        if isinstance(n, ast.Assign) and isinstance(n.targets[0], ast.Name) and n.targets[0].id.startswith('has_') \
-                and isinstance(n.value, ast.Constant) and n.value.value is True:
-            flags_set.append(n)
+    from sfa import roles
     from sfa.rules.frozen import _enclosing_tests
-    loops = [n for n in walk_local(h.node) if isinstance(n, ast.For) and norm(n.iter) == 'v_iter']
-    ctx.require(bool(loops) and len(flags_set) >= 6, 'prepare_iter_for_array scans its values and sets its flags')
+    # the scan loop: a for loop over an iterator of the values whose body sets Boolean flags
+    flag_names = set(roles.assigned_from_all(h.node, lambda v: isinstance(v, ast.Constant) and v.value is False))
+    loops = [n for n in walk_local(h.node) if isinstance(n, ast.For) and isinstance(n.target, ast.Name)
+             and sum(1 for a in ast.walk(n) if isinstance(a, ast.Assign) and isinstance(a.targets[0], ast.Name) and a.targets[0].id in flag_names
+                     and isinstance(a.value, ast.Constant) and a.value.value is True) >= 6]
+    ctx.require(len(loops) == 1, 'prepare_iter_for_array scans its values and sets its flags')
+    lp = loops[0]
+    vname = lp.target.id
+    vt = roles.assigned_from(lp, lambda v: isinstance(v, ast.Call) and call_name(v) == 'type' and len(v.args) == 1 and norm(v.args[0]) == vname)
+    hn = roles.canonical(h.node, {'v': vname, 'value_type': vt})
+    lp = [n for n in walk_local(hn) if isinstance(n, ast.For) and isinstance(n.target, ast.Name) and n.target.id == 'v' and n.lineno == lp.lineno][0]
+    # each flag is named by the test of the current element under which it is set
+    role_of_test = {
+        "isinstance(v, (tuple, list)) or hasattr(v, '__slots__')": 'has_tuple', 'isinstance(v, Enum)': 'has_enum',
+        'value_type == str or value_type == np.str_': 'has_str', 'value_type in INEXACT_TYPES': 'has_inexact',
+        'value_type == int and abs(v) > INT_MAX_COERCIBLE_TO_FLOAT': 'has_big_int',
+    }
+    flags_set = [a for a in ast.walk(lp) if isinstance(a, ast.Assign) and isinstance(a.targets[0], ast.Name) and a.targets[0].id in flag_names
+                 and isinstance(a.value, ast.Constant) and a.value.value is True]
+    found: tp.Dict[str, str] = {}
     for a in flags_set:
-        tests = [t for t, pol in _enclosing_tests(loops[0], a)]
-        dep = sorted({x.id for t in tests for x in ast.walk(t) if isinstance(x, ast.Name) and x.id.startswith('has_')})
-        (ctx.ok if not dep else ctx.bad)(R, h, a, f'{a.targets[0].id} is decided from the current element alone' if not dep else
-                                         f'{a.targets[0].id} is only set when {dep} was already seen: whether a mix is detected depends on the order of the elements '
-                                         '(e.g. a big int before the first float is missed and silently becomes a float)', key=f'prepare:flag-independent:{a.targets[0].id}')
+        tests = _enclosing_tests(lp, a)
+        if tests and tests[-1][1] and norm(tests[-1][0]) in role_of_test:
+            found[role_of_test[norm(tests[-1][0])]] = a.targets[0].id
+        elif tests and not tests[-1][1] and norm(tests[-1][0]) == 'value_type == str or value_type == np.str_':
+            found['has_non_str'] = a.targets[0].id
+    hn2 = roles.canonical(hn, found)
+    src = [norm(n) for n in walk_local(hn2) if isinstance(n, ast.If)]
+    need = [('has_tuple or has_enum or (has_str and has_non_str)', {'has_tuple', 'has_enum', 'has_str', 'has_non_str'}), ('has_big_int and has_inexact', {'has_big_int', 'has_inexact'})]
+    for nd, used in need:
+        resolved_name = roles.assigned_from(hn2, lambda v: isinstance(v, ast.Name) and v.id == 'object')
+        hit = [x for x in src if nd in x and f'{resolved_name} = object' in x] if used <= set(found) else []
+        (ctx.ok if hit else ctx.bad)(R, h, h.node, f'`{nd}` forces object' if hit else f'the mixing condition `{nd}` no longer forces an object array', key=f'prepare:{nd[:30]}')
+    # order independence of the scan: a flag is set under a test of the current element only, never of other flags
+    for a in flags_set:
+        tests = [t for t, pol in _enclosing_tests(lp, a)]
+        dep = sorted({x.id for t in tests for x in ast.walk(t) if isinstance(x, ast.Name) and x.id in flag_names})
+        role = next((r for r, nm in found.items() if nm == a.targets[0].id), f'flag@{norm(tests[-1])[:30] if tests else "?"}')
+        (ctx.ok if not dep else ctx.bad)(R, h, a, f'{role} is decided from the current element alone' if not dep else
+                                         f'{role} is only set when another flag was already seen: whether a mix is detected depends on the order of the elements '
+                                         '(e.g. a big int before the first float is missed and silently becomes a float)', key=f'prepare:flag-independent:{role}')
